@@ -140,7 +140,7 @@ def _work(args):
         # the scanner's own route for file names whose language hangs on a case-sensitive or extension-less name pattern
         # (Widget.C and Header.H are C++, BUILD and SConstruct are Python): the file must be measured as the text is
         # (seeded change C01-17: the lexer looked up by the lower-cased name)
-        if lang in ("Cpp", "Python") and seed % 6 == 0 and r[0] == 0:
+        if lang in ("Cpp", "Python", "C", "Java") and seed % 6 == 0 and r[0] == 0:
             import os
             import shutil
             import tempfile
@@ -148,8 +148,20 @@ def _work(args):
             from codelimit.common import Scanner
             d = tempfile.mkdtemp(prefix="verif_c01_")
             try:
-                nm = {"Cpp": ["Widget.C", "Header.H"], "Python": ["BUILD", "SConstruct"]}[lang][(seed // 6) % 2]
-                with open(os.path.join(d, nm), "w", encoding="utf8", newline="") as f:
+                # C: a header (the extension .h is claimed by the C and the Objective-C lexer: the NAME decides, not the text —
+                # seeded change C01-20); Java: an ordinary name.  When the text can be written in Latin-1 and is not ASCII, it is
+                # (the scanner reads such a file through its Latin-1 fall-back: same characters, same positions — seeded change
+                # C01-19: decoded as UTF-8 with replacement characters)
+                nm = {"Cpp": ["Widget.C", "Header.H"], "Python": ["BUILD", "SConstruct"], "C": ["api.h", "util.h"],
+                      "Java": ["Main.java", "Main.java"]}[lang][(seed // 6) % 2]
+                enc = "utf8"
+                if not text.isascii():
+                    try:
+                        text.encode("latin-1")
+                        enc = "latin-1"
+                    except UnicodeEncodeError:
+                        pass
+                with open(os.path.join(d, nm), "w", encoding=enc, newline="") as f:
                     f.write(text)
                 e = Scanner.scan_path(Path(d)).files.get(nm)
                 via_file = None if e is None else [[m.unit_name, [m.start.line, m.start.column], [m.end.line, m.end.column], m.value] for m in e.measurements()]
